@@ -4,6 +4,7 @@ import (
 	"bytes"
 	"encoding/json"
 	"fmt"
+	"github.com/alttpo/snes/emulator/memory"
 	"testing"
 
 	"github.com/alttpo/snes/emulator"
@@ -34,7 +35,9 @@ func c11Fill(seed uint32) *c11Sys {
 	for i := range s.ROM {
 		s.ROM[i] = rig.Mix(seed^0x524F4D, uint32(i))
 	}
-	s.ROM[0x7FD5], s.ROM[0x7FD6], s.ROM[0x7FD7], s.ROM[0x7FD8] = 0x20, 0x02, 0x08+byte(seed&1), 0x03
+	s.ROM[0x7FD5], s.ROM[0x7FD6], s.ROM[0x7FD7], s.ROM[0x7FD8] = 0x20, 0x02, 0x08+byte(seed&1), 1+byte(seed>>1&3)
+	// ... with a checksum and its complement that belong together, the way header detection wants them
+	s.ROM[0x7FDC], s.ROM[0x7FDD] = ^s.ROM[0x7FDE], ^s.ROM[0x7FDF]
 	for i := range s.WRAM {
 		s.WRAM[i] = rig.Mix(seed^0x5752414D, uint32(i))
 	}
@@ -322,7 +325,7 @@ func init() {
 func TestC11(t *testing.T) {
 	rig.Main(t, "C11", "complete enumeration of all 2^24 bus addresses on an emulator.System whose ROM/WRAM/SRAM arrays hold seed-defined contents: "+
 		"inside the console's documented layout a read must return, and a write must change, exactly the array cell lorom.BusAddressToPak designates; "+
-		"outside it a write that changes any array cell must hit the mapper's cell, and a write the emulator accepts at an address to which the mapper assigns a memory class must be stored in that cell; all three arrays are compared with golden copies after every bank; afterwards the System that was copied is read again through its own bus, and each System's CPU.Bus is compared with the System's bus. "+
+		"outside it a write that changes any array cell must hit the mapper's cell, and a write the emulator accepts at an address to which the mapper assigns a memory class must be stored in that cell; all three arrays are compared with golden copies after every bank; afterwards the System that was copied is read again through its own bus, and each System's CPU.Bus is compared with the System's bus; finally a device of the caller's own is attached over 4 KiB of one SRAM window (the other mirror and the neighbours keep answering from the arrays). "+
 		"Distinct = (content seed, address); non-trivial = the address is ROM, SRAM or WRAM for the console or the bus accepted a write there.",
 		func(r *rig.Run) {
 			ev := r.Ev
@@ -442,6 +445,35 @@ func TestC11(t *testing.T) {
 							r.Violation("cpu-view", c11Case{seed, a}, fmt.Errorf("System %d (0 = fresh, 1 = copied and re-created): its CPU reads %02x (%v) at $%06X, its bus %02x (%v): the CPU does not run on the System's own memory map", k, viaCPU, p1, a, viaSys, p2))
 							failed = true
 							break
+						}
+					}
+				}
+				// a cartridge device of the caller's own attached over part of one window (here 4 KiB of SRAM at $70:1000)
+				// answers there - and only there: the other mirror of the same cells and the neighbouring addresses keep
+				// answering from the System's arrays
+				if !failed {
+					private := make([]byte, 0x1000)
+					for i := range private {
+						private[i] = ^q.s.SRAM[0x1000+i]
+					}
+					if err := q.s.Bus.Attach(memory.NewRAM(private, 0x701000), "private", 0x701000, 0x701FFF); err != nil {
+						r.Violation("own-device", c11Case{seed, 0x701000}, fmt.Errorf("Attach of a 4 KiB device at $70:1000-$70:1FFF on the System's bus: %v", err))
+						failed = true
+					}
+					for _, a := range []uint32{0x701000, 0x701FFF, 0x700FFF, 0x702000, 0xF01000, 0xF01FFF, 0xF00FFF, 0x711000, 0xF11234, 0x7E1000, 0x001000} {
+						if failed {
+							break
+						}
+						if a>>12 == 0x701 {
+							if got := q.s.Bus.EaRead(a); got != private[a&0xFFF] {
+								r.Violation("own-device", c11Case{seed, a}, fmt.Errorf("EaRead($%06X) = %02x after a device was attached there, the device holds %02x", a, got, private[a&0xFFF]))
+								failed = true
+							}
+							continue
+						}
+						if err := q.readOnly(a); err != nil {
+							r.Violation("own-device", c11Case{seed, a}, fmt.Errorf("after a device of the caller's own was attached at $70:1000-$70:1FFF only: %v", err))
+							failed = true
 						}
 					}
 				}
